@@ -224,12 +224,14 @@ func distText(a gAttr) (string, bool) {
 }
 
 var gClassVals = []gAttr{
-	// numbers that differ beyond the 7th significant digit (distinct classes)
-	{Kind: "f", F: 0.123456789}, {Kind: "f", F: 0.123456791}, {Kind: "f", F: 12.3456789}, {Kind: "f", F: 12.3456791}, {Kind: "f", F: 0.5},
-	{Kind: "s", S: "x"}, {Kind: "s", S: "y"}, {Kind: "s", S: "ab"}, {Kind: "s", S: "s1"}, {Kind: "s", S: "3"}, {Kind: "s", S: "na"},
-	{Kind: "i", I: 3}, {Kind: "i", I: 0}, {Kind: "i", I: 12}, {Kind: "b", B: true}, {Kind: "b", B: false},
 	// values that are prefixes / suffixes of each other: (1,12) and (11,2) are different (class, directory) pairs
-	{Kind: "s", S: "1"}, {Kind: "s", S: "11"}, {Kind: "i", I: 1}, {Kind: "i", I: 11}, {Kind: "s", S: "2"},
+	// (first in the list: rapid draws the first entries of a list most often)
+	{Kind: "s", S: "1"}, {Kind: "s", S: "11"}, {Kind: "i", I: 1}, {Kind: "i", I: 11}, {Kind: "s", S: "2"}, {Kind: "i", I: 12},
+	// numbers that differ beyond the 7th significant digit (distinct classes)
+	{Kind: "f", F: 0.123456789}, {Kind: "f", F: 0.123456791},
+	{Kind: "s", S: "x"}, {Kind: "s", S: "y"}, {Kind: "s", S: "ab"}, {Kind: "s", S: "s1"}, {Kind: "s", S: "3"}, {Kind: "s", S: "na"},
+	{Kind: "i", I: 3}, {Kind: "i", I: 0}, {Kind: "b", B: true}, {Kind: "b", B: false},
+	{Kind: "f", F: 12.3456789}, {Kind: "f", F: 12.3456791}, {Kind: "f", F: 0.5},
 }
 
 func genDistCase(rt *rapid.T) distCase {
@@ -294,6 +296,26 @@ func genDistCase(rt *rapid.T) distCase {
 			r.Attrs = append(r.Attrs, a)
 		}
 		c.Recs = append(c.Recs, r)
+	}
+	if c.DirKey != "" && len(c.Recs) >= 2 && rapid.IntRange(0, 2).Draw(rt, "colliding_pairs") == 0 {
+		// by construction: two (class, directory) pairs whose texts concatenate to the same string
+		pairs := [][2]gAttr{{{Kind: "s", S: "1"}, {Kind: "s", S: "12"}}, {{Kind: "s", S: "11"}, {Kind: "s", S: "2"}}}
+		if rapid.Bool().Draw(rt, "colliding_ints") {
+			pairs = [][2]gAttr{{{Kind: "i", I: 1}, {Kind: "i", I: 12}}, {{Kind: "i", I: 11}, {Kind: "i", I: 2}}}
+		}
+		at := []int{0, len(c.Recs) - 1}
+		for k, pr := range pairs {
+			r := &c.Recs[at[k]]
+			var kept []gAttr
+			for _, a := range r.Attrs {
+				if a.Key != c.Key && a.Key != c.DirKey {
+					kept = append(kept, a)
+				}
+			}
+			cl, dr := pr[0], pr[1]
+			cl.Key, dr.Key = c.Key, c.DirKey
+			r.Attrs = append(kept, cl, dr)
+		}
 	}
 	return c
 }
